@@ -46,6 +46,7 @@ def shards(tier):
         for t in range(32):
             out.append(("map", t, [0, 21, 42, 63], [0, 5, 10, 15, 20, 25, 30, 31]))
     out.append(("forms",))
+    out.append(("occflags",))
     for first in range(len(MAP_OPS)):
         out.append(("mapops", first, 3 if tier == "quick" else 4))
     return out
@@ -206,6 +207,49 @@ def run_shard(shard):
         if dmap.mapping != snap:
             add_violation(res, "C12:map-mutated", "decoding changed the map", {"t": "map", "v": 0x8000, "map": str(t)})
         sample(res, {"map_type": t, "shorts": shorts[:4], "inums": inums[:4], "frames": n})
+    elif k == "occflags":
+        # all 16 occupancy flag tuples x 5 schemes x sources of the flag tuple (literal strings, strings built at run time, a
+        # pickled and a copied tuple): the event built from the tuple carries the 10 bits the flags denote, and decoding that
+        # frame (directly, through a map, via retry_decode) reports the same tuple
+        import copy
+        import pickle
+        from dali.device.occupancy import OccupancyEvent
+        from dali.device.helpers import DeviceInstanceTypeMapper
+        ED = OccupancyEvent.EventData
+        schemes = {"device": dict(short_address=5), "device_instance": dict(short_address=5, instance_number=9), "device_group": dict(device_group=7),
+                   "instance": dict(instance_number=30), "instance_group": dict(instance_group=11)}
+        sources = {"literal": lambda t: t, "runtime-string": lambda t: ED(t[0], t[1], t[2], "".join(list(t[3]))),
+                   "pickle": lambda t: pickle.loads(pickle.dumps(ED(t[0], t[1], t[2], "".join(list(t[3]))))),
+                   "deepcopy": lambda t: copy.deepcopy(ED(t[0], t[1], t[2], t[3].upper().lower())), "plain-tuple->EventData": lambda t: ED(*tuple(t))}
+        m = DeviceInstanceTypeMapper()
+        m.add_type(short_address=5, instance_number=9, instance_type=3)
+        for bits in range(16):
+            lit = ED(movement=bool(bits & 1), occupied=bool(bits & 2), repeat=bool(bits & 4), sensor_type="movement" if bits & 8 else "presence")
+            for sname, src in sources.items():
+                for sch, kw in schemes.items():
+                    res["evaluations"] += 1
+                    case = {"t": "occflags", "bits": bits, "source": sname, "scheme": sch}
+                    try:
+                        ev = OccupancyEvent(data=src(lit), **kw)
+                        info = ev.frame.as_integer & 0x3FF
+                    except Exception as e:
+                        add_violation(res, "C12:occupancy-flags:construct-raises", f"OccupancyEvent from flags {tuple(lit)} ({sname}, {sch}): {e!r}", case)
+                        continue
+                    if info != bits:
+                        add_violation(res, "C12:occupancy-flags:event-information", f"OccupancyEvent from flags {tuple(lit)} ({sname}, {sch}): frame carries event "
+                                      f"information {info:#06b}, the flags denote {bits:#06b}", case)
+                    dm = m if sch == "device_instance" else None
+                    d = from_frame(FF(24, ev.frame.as_integer), dev_inst_map=dm)
+                    if type(d) is not OccupancyEvent or tuple(d.event_data) != tuple(lit) or tuple(ev.event_data) != tuple(lit):
+                        add_violation(res, "C12:occupancy-flags:decode", f"OccupancyEvent from flags {tuple(lit)} ({sname}, {sch}): decoding its frame gives "
+                                      f"{type(d).__name__} {getattr(d, 'event_data', None)}", case)
+                    if sch == "device_instance":
+                        amb = from_frame(FF(24, ev.frame.as_integer))
+                        r = amb.retry_decode(m)
+                        if r is None or tuple(r.event_data) != tuple(lit):
+                            add_violation(res, "C12:occupancy-flags:retry", f"flags {tuple(lit)} ({sname}): retry_decode gives {r}", case)
+                    res["distinct"].add(("occflags", sname, sch))
+        sample(res, {"occupancy_flag_tuples": 16, "sources": list(sources), "schemes": list(schemes)})
     elif k == "forms":
         # all ways of building the same map must behave identically (get_type and decode)
         from dali.address import DeviceShort, InstanceNumber
@@ -317,4 +361,6 @@ def replay(case):
         return [x for x in vs if x["case"].get("ops") == case["ops"]] or vs
     else:
         return run_shard(("forms",))["violations"]
+    if case.get("t") == "occflags":
+        return run_shard(("occflags",))["violations"]
     return res["violations"]
